@@ -256,6 +256,8 @@ def attributes(tokeniser: Any) -> list[Route]:
         # Copy template settings and update with new CIDR
         settings = copy(template_settings)
         settings.cidr = CIDR.create_cidr(ipmask.pack_ip(), ipmask.mask)
+        # the family of THIS prefix (the template has the family of the last one of the command)
+        settings.afi = IP.toafi(ipmask.top())
         settings.action = Action.UNSET
 
         # Create immutable NLRI from settings
